@@ -184,7 +184,10 @@ func (n *c3Net) RoundTrip(req *http.Request) (*http.Response, error) {
 	defer n.mu.Unlock()
 	defer func() {
 		if n.countOut != "" {
-			_ = os.WriteFile(n.countOut, []byte(n.counts()), 0o644)
+			if f, err := os.OpenFile(n.countOut, os.O_APPEND|os.O_CREATE|os.O_WRONLY, 0o644); err == nil {
+				_, _ = f.WriteString(n.counts() + "\n")
+				_ = f.Close()
+			}
 		}
 	}()
 	if err := req.Context().Err(); err != nil {
